@@ -40,8 +40,12 @@ CHECKS = {
    text="DDPSem.tla is a big-step evaluation semantics of the core language in TLA+ (64-bit integers as byte limbs, a dyadic Kommazahl fragment, Text as code points, lists, "
         "Kombinationen, Variable, Referenz parameters through a store of locations, loops with break/continue/return). Generated programs (operator table: every operator x "
         "admissible operand types x boundary values; statement skeletons: loop bounds/steps, break/continue/return placement, for-each, recursion; copy/alias matrix) are compiled "
-        "with the tree's kddp, linked with the tree's runtime, run, and TLC (DDPRunTrace) checks stdout and exit status of each run against the semantics.",
-   note="Bounded to the modelled subset and the generated programs; corners DDP leaves open evaluate to 'unspec' in the specification and are not compared (counted in the evidence). "
+        "with the tree's kddp, linked with the tree's runtime, run, and TLC (DDPRunTrace) checks stdout and exit status of each run against the semantics. "
+        "The repository's own programs (tests/testdata/kddp, stdlib tests, examples) are judged the same way: harness/go/cmd/astx exports the tree the REAL parser built into the "
+        "specification's program shape, the original source is compiled and run, TLC compares (constructs the exporter does not translate have no meaning: output is compared up to "
+        "that point). ParseTrace.tla: the real parser's tree of every pair / sampled triples and longer chains of the 17 binary operators (with prefix operators), written without "
+        "parentheses, must have the shape Precedence!Tree assigns.",
+   note="Bounded to the modelled subset, the generated programs and the repository's corpus (quick: the 69 language tests at -O1; thorough: all 100 programs at -O0..2); corners DDP leaves open evaluate to 'unspec' in the specification and are not compared (counted in the evidence). "
         "quick: -O1 (table) and -O1/-O2 (statements); thorough: -O0/-O1/-O2. Trusted: TLC, the renderer (a rejected rendering is reported, never judged).",
    technique="TLA+ executable semantics + TLC trace validation of compiled-program observations",
    ref="§4 C01"),
@@ -72,7 +76,9 @@ CHECKS = {
  "C19": dict(
    text="Literals.tla states what a written literal denotes (integers up to 2^63-1 else rejected; text and character literals with the escape set a b n r t \\ and the quote, "
         "unknown escapes and malformed bodies rejected; decimal-comma literals in the exactly representable fragment). Every generated literal is parsed by the real frontend "
-        "(accepted/rejected) and, if accepted, printed by a compiled program; TLC validates each (source, verdict, output) record against the specification.",
+        "(accepted/rejected) and, if accepted, printed by a compiled program; TLC validates each (source, verdict, output) record against the specification. Every literal that "
+        "denotes no value (and every out-of-range integer, plus a sample of valid ones) is also placed in the other positions a literal may stand in (21 for integers: repetition counts, "
+        "loop bounds and steps, index, list fill, default value, argument, ...; 5 for characters; 5 for texts): LiteralTrace!Ctx requires rejection there as well.",
    note="Decimal literals that are not exactly representable are not compared (correct rounding of the 17th digit is not decided here). Text bodies are exhaustive up to 2 symbols, "
         "sampled at 3 (quick) and exhaustive to 3, sampled at 4 (thorough).",
    technique="TLA+ literal denotation + TLC trace validation of frontend verdicts and compiled output",
@@ -81,7 +87,8 @@ CHECKS = {
    text="Heap.tla states the allocator protocol (alloc / realloc / free / noop over a map of live blocks with their sizes; every other call - a block that is not live, a wrong "
         "old size - is not an action; at normal termination no block is live). The ledger of every ddp_reallocate call of generated programs (ownership role x exit path programs, "
         "copy matrix, statement skeletons, text histories, structural operator cases; -O0/-O2 quick, all levels thorough), recorded by a link-time --wrap shim, is validated call by "
-        "call by TLC (HeapTrace); the same programs run against the ASan/LSan-built runtime and stdlib, where any sanitizer report is an event the specification has no action for.",
+        "call by TLC (HeapTrace); the same programs run against the ASan/LSan-built runtime and stdlib, where any sanitizer report is an event the specification has no action for. "
+        "The ledgers of the repository's own test programs and examples (compiled from their original source) are validated by the same trace specification.",
    note="Executed paths of the generated programs only. Loads/stores of generated code that go through neither libc nor the runtime are invisible to ASan (the object is not "
         "instrumented). Programs ending in a Laufzeitfehler are exempt from the leak requirement (the runtime exits without unwinding).",
    technique="TLA+ allocator protocol + TLC trace validation of recorded allocation ledgers + sanitizer runs",
@@ -89,7 +96,8 @@ CHECKS = {
  "C11": dict(
    text="The semantics (DDPSem/DDPRun) has no notion of optimisation level or link mode: it assigns one behaviour per program. Generated core-language programs are built under "
         "{-O0,-O1,-O2} x {modules linked into one LLVM module, compiled separately} x {list definitions linked, separate object}; TLC validates the observation (stdout, "
-        "Laufzeitfehler, exit status) of every configuration against that one behaviour, so all configurations agree with the specification and hence with each other.",
+        "Laufzeitfehler, exit status) of every configuration against that one behaviour, so all configurations agree with the specification and hence with each other. "
+        "The repository's own programs (tree exported from the real parser by astx, evaluated by DDPSem) are compared at -O0 and -O2 (thorough: all levels) in the same way.",
    note="'modules not linked' is realised outside kddp (Duden/Ausgabe compiled on its own, its ddp_ddpmain localised with objcopy, all objects linked): at -O0 this arrangement "
         "does not link (clashing names of unnamed constants) and is counted as unrealisable, not judged. The combination modules-unlinked + list-defs-linked defines the list "
         "functions once per object and cannot be linked for programs with imports. The -O2 copy-elision defect is a known finding.",
@@ -99,9 +107,11 @@ CHECKS = {
    text="Frontend.tla states the frontend as a total function: one call of parser.Parse ends in Returned(module | error); Panic, a fatal runtime error, a kill by a resource limit, "
         "a timeout and a parser-loop iteration without progress (hook H2 in the main and block loops) are not actions of the module. Seed programs (the repository's corpus, "
         "examples, generated programs, import arrangements with missing files, directories, self- and mutual imports, clashes between imports) and all their single token mutants "
-        "(delete, duplicate, swap, splice; seeded pairs) and seeded byte mutants are parsed in sacrificial workers; TLC validates one event per input. A failing input is re-run "
+        "(delete, duplicate, swap, splice, substitution by a token of the same type, a literal of another type or an undeclared name, a transplanted statement; seeded pairs) and seeded "
+        "byte mutants are parsed in sacrificial workers; hand-written feature seeds (alias declarations, list-type aliases, generic Kombinationen, every declaration kind) and one seed "
+        "per operator name x declared arity cover grammar the corpus does not use; TLC validates one event per input. A failing input is re-run "
         "alone before it counts.",
-   note="Mutation distance <= 2, quick samples 60 mutants + 8 byte mutants per seed, thorough takes all single mutants. 'Unbounded memory growth' is only observed as the 8 GiB limit. "
+   note="Mutation distance <= 2, quick samples 60 mutants (a quota per mutant kind) + 8 byte mutants per seed and takes all mutants of the feature seeds, thorough takes all single mutants. 'Unbounded memory growth' is only observed as the 8 GiB limit. "
         "Findings are keyed by the crash site (innermost repository frames), so another input reaching a new site is still reported.",
    technique="TLA+ totality/progress specification + TLC trace validation of the real frontend over enumerated mutants",
    ref="§4 C03"),
@@ -180,9 +190,10 @@ CHECKS = {
    text="DDPStatic.tla states the static rules over the shared JSON AST (scope chain, redeclaration, the type rule of every expression and statement position, transparent aliases and opaque type "
         "definitions, Konstanten, loop depth, final return, visibility of imported declarations and fields, article agreement). Base programs (generated semantic cases, a statement zoo with "
         "nesting depth 3, a block using every public declaration of an imported module, every prelude function) are cut into units; exactly one fault is injected at every applicable site "
-        "(42 fault classes; capped per class by a seeded sample). TLC classifies every mutant (still well-formed: dropped), the real frontend and, for a sample, kddp give the verdict; "
+        "(45 fault classes incl. names that exist only at the call site of a function; capped per class by a seeded sample). TLC classifies every mutant (still well-formed: dropped), the real frontend and, for a sample, kddp give the verdict; "
         "StaticTrace.tla requires ill-formed => at least one error diagnostic, non-zero exit and no artefact; every base unit must be well-formed, accepted and compiled.",
-   note="Generic declarations and operator overloads do not occur in the base programs. A crash of the frontend counts as rejection here (C03 reports crashes).",
+   note="Generic functions are units of their own (DDPStatic sees the textual specialisation - C15 - the frontend the generic spelling with two call sites); the body of a generic "
+        "function using a later global of its module is a known finding. Operator overloads do not occur in the base programs. A crash of the frontend counts as rejection here (C03 reports crashes).",
    technique="TLA+ static semantics (WellFormed) + fault injection classified by TLC + TLC trace validation of the real frontend's and kddp's verdicts",
    ref="§4 C04"),
 }
